@@ -34,3 +34,16 @@ Theorem C15_tuple2 : forall A B (SA : RSpec A) (SB : RSpec B) (IA : Items A) (IB
   (CA : ItemOrd IA) (CB : ItemOrd IB), ItemOrdOK A IA CA -> ItemOrdOK B IB CB ->
   ItemOrdOK (tuple2 A B) (tuple2_items IA IB) (tuple2_ord CA CB).
 Proof. exact (@tuple2_ord_ok). Qed.
+
+(** The tie to the terms the correspondence runs: for EVERY region of the catalogue whose Rust read
+    item is ordered (the model records the comparison in [m_ord]), except entries 21 and 29,
+    comparing two well-formed read items -- in any representation -- yields the comparison of the
+    owned values, and that comparison is a total order. *)
+From FC Require Import Model.Wire Model.Catalogue Model.CatalogueOk.
+Theorem C15_catalogue : forall chk szs n e, entry chk szs n = Some e -> n <> 21%N -> n <> 29%N ->
+  exists (SP : RSpec (mr e)) (IS : ISpec (mi e)),
+    forall C, m_ord e = Some C -> @ItemOrdOK (mr e) SP (mi e) IS C.
+Proof.
+  intros chk szs n e He H21 H29. destruct (catalogue_full chk szs He H21 H29) as (SP & IS & _ & _ & HO).
+  exists SP, IS. exact HO.
+Qed.
